@@ -4,6 +4,7 @@ import (
 	"encoding/hex"
 	"errors"
 	"strings"
+	"unicode"
 
 	"github.com/ucan-wg/go-ucan/pkg/command"
 )
@@ -132,7 +133,14 @@ func runCommandStream(c *ctx) error {
 	}
 	allStrings("/abA", n, func(s string) { parseCase(s, "parse") })
 	// random strings: UTF-8 letters with case, invalid UTF-8, long strings
-	extra := []string{"/É", "/é", "/ǅ", "/ß", "/İ", "/\xff", "/a\xc3", "/ほげ/ふが", "/Σ", "/ς"}
+	extra := []string{"/É", "/é", "/ǅ", "/ß", "/İ", "/\xff", "/a\xc3", "/ほげ/ふが", "/Σ", "/ς",
+		"/crud/ǅ", "/crud/ǆ", "/ǈ", "/ǋ", "/ǲ", "/Ⅰ/create", "/ⅰ/create", "/Ⅿ", "/store/Ⓐdd", "/store/ⓐdd", "/Ⓩ", "/ᾈ", "/ᾀ", "/ᾼ", "/ῼ", "/K", "/Å", "/ſ", "/ı", "/µ", "/μ", "/σ"}
+	// every rune that has a lowercase form, whatever its category (the rule is s == ToLower(s), not "no capital letter")
+	for r := rune(0x80); r < 0x1F000; r++ {
+		if unicode.ToLower(r) != r && (c.thoro || !unicode.IsUpper(r) || r%7 == 0) {
+			extra = append(extra, "/x"+string(r))
+		}
+	}
 	for i := 0; i < 2000; i++ {
 		l := c.rng.Intn(12)
 		bs := []byte{'/'}
